@@ -80,7 +80,8 @@ func (r *Run) c03Build(t interface {
 		tol = wfTolerated
 	}
 	// foreign for both kinds of request, so that a rejected node is rejected whoever asks
-	foreign := []string{"text/html", "text/html; charset=utf-8", "application/xml", "text/plain", "image/png", "application/octet-stream", "application/activity+xml", "application/jsonx", "application/xrd+xml"}
+	foreign := []string{"text/html", "text/html; charset=utf-8", "application/xml", "text/plain", "image/png", "application/octet-stream", "application/activity+xml", "application/jsonx", "application/xrd+xml",
+		"application/*", "*/*", "application/*; charset=utf-8", "*/json", "application/*+json"}
 	pick := func(v []string) string { return v[t.Draw(len(v))] }
 	for i, u := range urls {
 		n := &c03Node{URL: u, WF: wf}
